@@ -185,9 +185,15 @@ def _pyobj(name):
         "empty-str": lambda: "", "genexp": lambda: (x for x in ints), "pairs-namedtuple": lambda: [_Pair(1, "a"), (2, "b"), _Pair(1, "c")],
         "bools": lambda: (True, False, True), "floats-tuple": lambda: (0.5, 1.5),
         "strpairs": lambda: [("a", 1), ("z", 2), ("b", 3), ("a", 4)],
+        # elements that are not pairs, of every shape: sized or one-shot, too long / too short / not iterable / unhashable key
+        "pair-iter3": lambda: [(1, 2), iter([3, 4, 5])], "pair-iter1": lambda: [(1, 2), iter([3])], "pair-gen2": lambda: [(x for x in (7, 8))],
+        "pair-map3": lambda: [map(int, "123")], "pair-tuple3": lambda: [(1, 2, 3)], "pair-str2": lambda: ["ab", "c"], "pair-int": lambda: [(1, 2), 5],
+        "pair-unhashable": lambda: [([1], 2)], "pair-list2": lambda: [[1, 2], [1, 3]], "pair-set2": lambda: [{4, 5}],
     }[name]()
 
 
+_PAIRISH = ["pair-iter3", "pair-iter1", "pair-gen2", "pair-map3", "pair-tuple3", "pair-str2", "pair-int", "pair-unhashable", "pair-list2",
+            "pair-set2"]
 _PYOBJ_NAMES = ["strpairs", "tuple", "namedtuple", "revtuple", "duplist", "dict", "dictitems", "str", "bytes", "range", "frozenset", "deque",
                 "falsy", "empty-tuple", "empty-str", "genexp", "pairs-namedtuple", "bools", "floats-tuple"]
 _PYOBJ_TOOLS = ["all", "any", "sum", "min", "max", "list", "tuple", "set", "dict", "sorted", "reduce", "nlargest", "nsmallest"]
@@ -198,6 +204,10 @@ def _pyobj_cases():
         for tool in _PYOBJ_TOOLS:
             if tool == "dict" and name == "dict":
                 continue    # dict(mapping) copies the mapping (CPython looks for .keys()); asyncstdlib.dict takes iterables of pairs only - documented
+            yield {"tool": tool, "family": "pyobj", "input": name, "params": {}, "srcs": [{"kind": "list", "script": [["s", name]]}],
+                   "fns": [], "cons": {"fin": "exhaust"}}
+    for name in _PAIRISH:
+        for tool in ("dict",):
             yield {"tool": tool, "family": "pyobj", "input": name, "params": {}, "srcs": [{"kind": "list", "script": [["s", name]]}],
                    "fns": [], "cons": {"fin": "exhaust"}}
     # keyword arguments of the Python-level signatures: dict(pairs, **kw) (kw after the pairs, overriding them), sorted/min/max
